@@ -10,7 +10,7 @@ from sx import Sym
 
 PROP = "C02"
 PROP_FILE = "C02_Eval"
-THEOREMS = ['c02_and_short_circuit', 'c02_or_short_circuit', 'c02_and_evaluated_operands', 'c02_or_evaluated_operands', 'c02_if', 'c02_binary_left_to_right', 'c02_eq_total', 'c02_arith_exact', 'c02_neg_exact', 'c02_arith_type_error', 'c02_in_entity', 'c02_in_entity_set', 'c02_in_set_with_nonentity', 'c02_has_absent_entity', 'c02_has_iff_access_succeeds', 'c02_is', 'c02_like', 'c02_eq_equivalence', 'c02_set_eq_same_members', 'c02_set_order_insensitive', 'c02_set_duplicate_insensitive', 'c02_set_operations', 'c02_set_mem_respects_eq']
+THEOREMS = ['c02_and_short_circuit', 'c02_or_short_circuit', 'c02_and_evaluated_operands', 'c02_or_evaluated_operands', 'c02_if', 'c02_binary_left_to_right', 'c02_eq_total', 'c02_arith_exact', 'c02_neg_exact', 'c02_arith_type_error', 'c02_in_entity', 'c02_in_entity_set', 'c02_in_set_with_nonentity', 'c02_has_absent_entity', 'c02_has_iff_access_succeeds', 'c02_is', 'c02_like', 'c02_like_loop', 'c02_eq_equivalence', 'c02_set_eq_same_members', 'c02_set_order_insensitive', 'c02_set_duplicate_insensitive', 'c02_set_operations', 'c02_set_mem_respects_eq']
 
 
 MANIFEST = {
@@ -184,7 +184,15 @@ def run_cases(rep, cases, harness, driver):
     import sx as _sx
     mcmd_txt = [hash(_sx.dump(m[4])) ^ hash(_sx.dump(m[1])) for m in mcmds]
     mres = fw.run_model(driver, mcmds)
-    stats = {"ok": 0, "err": {}, "routes": {"text": 0, "est": 0}, "mismatch": 0, "parse_error": 0}
+    # the transcription of the Rust two-pointer loop is run as well on every `like` of a literal
+    from sx import Str
+    like_idx = [i for i, c in enumerate(cases)
+                if c["expr"][0] == "like" and c["expr"][1][0] == "lit" and c["expr"][1][1][0] == "string"]
+    like_cmds = [[Sym("like_loop"), [Sym("star") if ch == ("*",) else ord(ch) for ch in cases[i]["expr"][2]],
+                  Str(cases[i]["expr"][1][1][1])] for i in like_idx]
+    like_res = dict(zip(like_idx, fw.run_model(driver, like_cmds)))
+    stats = {"ok": 0, "err": {}, "routes": {"text": 0, "est": 0}, "mismatch": 0, "parse_error": 0,
+             "like_loop_cases": len(like_idx)}
     distinct = set()
     nviol = 0
     for (cmd, i, rr) in zip(rcmds, owner, rres):
@@ -201,6 +209,12 @@ def run_cases(rep, cases, harness, driver):
                                "theorem_or_correspondence": "correspondence eval <-> Evaluator::interpret"},
                               no_failing_input=True)
             continue
+        if i in like_res and r[0] == "ok" and r[1] != ("bool", str(like_res[i]) == "true"):
+            nviol += 1
+            rep.violation({"property": PROP, "kind": "wildcard loop (model transcription of Pattern::wildcard_match) differs from the implementation",
+                           "route": cmd["route"], "case": describe(cases[i]), "rust": rr, "model_loop": str(like_res[i]),
+                           "theorem_or_correspondence": "c02_like_loop transfers to the code only through this correspondence"},
+                          no_failing_input=(r == m))
         if r != m:
             stats["mismatch"] += 1
             nviol += 1
@@ -246,7 +260,7 @@ def run(rep, tier, seed):
         "vm_compute_crosscheck_cases": nx,
         "outcome_histogram": {"ok": stats["ok"], "errors": stats["err"]},
         "operator_histogram": ops,
-        "systematic_cases": len(sysc),
+        "systematic_cases": len(sysc), "like_loop_cases": stats["like_loop_cases"],
         "samples": [describe(c) for c in (cases[:2] + cases[-2:])],
     }
     rep.assumptions = ["Unknown-free expressions; nesting depth <= 48", "error messages/locations not compared"]
